@@ -1,5 +1,6 @@
 import PhyloModel.Upgma.Step
 import PhyloModel.Matrix.Upgma
+import PhyloModel.Upgma.UltraTree
 /-! # C15 — UPGMA builds the correct ultrametric clustering tree
 
 Two layers.  `UPG.upgma` (Matrix/Upgma.lean) transcribes the loop of `DistanceMatrix::upgma` over exact
@@ -11,11 +12,15 @@ is proved: the code's size-weighted update IS average linkage of the merged clus
 average of the original distances between the clusters it joins, and merging a minimal pair keeps heights
 monotone, which makes the two new branch lengths non-negative.
 
-PARTIAL: the refinement from the transcribed loop to the abstract step (cells of the triangular vector =
-`D` on live pairs, via C13's index lemmas), the tree-side bookkeeping (every leaf below a cluster node is at
-distance `heights[i]`) and `upgma_recovers_ultrametric` are not yet theorems; they are decided on every run by
-the exact-model correspondence and by the oracles on the real result (equidistant leaves, non-negative
-lengths, naive average-linkage clustering from its definition, reproduction of ultrametric inputs). -/
+The refinement from the transcribed loop to the abstract step, the tree-side bookkeeping and the recovery of
+ultrametric inputs are theorems about the EXECUTABLE `UPG.step` / `UPG.loop` / `UPG.upgma` (second half of this file;
+`Upgma/RefineBase`, `RefineDm`, `Refine`, `UTree`, `LoopInv`, `Shape`, `Equidist`, `AvgLink`, `Ultra`, `UltraTree`): one
+iteration refines `UP.merge` at a minimal live pair and cannot fail; for every symmetric non-negative input on two or
+more taxa the result is a rooted binary tree whose leaf names are the taxa, all leaves equidistant from the root,
+every branch length non-negative, whose internal nodes are exactly the merge events of a complete run of
+average-linkage clustering from its definition; for ultrametric input the leaf-to-leaf path lengths are the input.
+Floating-point rounding is what remains modelled: the exact-model correspondence and the oracles on the real result
+(equidistant leaves, non-negative lengths, naive clustering, reproduction of ultrametric inputs) tie the crate to it. -/
 namespace C15
 open UP
 
@@ -61,5 +66,69 @@ example (hd : ∀ x y, d0 x y = d0 y x) : Link d0 { act := [0, 1, 2], D := d0, m
   · intro i _; simp
   · intro i j _ _; exact hd i j
   · intro i j _ _ _; simp [IsAvg, S, sumL]; grind
+
+
+/-! ## C15 — UPGMA builds the correct ultrametric clustering tree: theorems about the EXECUTABLE model
+
+This file completes `Props/C15.lean`: the parts listed there as PARTIAL are theorems here, and they are
+about `UPG.step` / `UPG.loop` / `UPG.upgma` (Matrix/Upgma.lean), the transcription of
+`DistanceMatrix::upgma` that the driver runs against the crate.
+
+Hypotheses common to all results: `taxa : List String` with `2 ≤ taxa.length`; the row-wise lower-triangular
+vector `v : Array Rat` has `v.size = T taxa.length` (symmetry is by construction of the triangular store);
+every entry is non-negative.  `d0of v i j` is the input read as a symmetric function with zero diagonal.
+The bookkeeping outputs (`margin`, `tie`, `dyadic`) occur only as "don't care" components.
+
+* `step_refines`, `step_total` — one loop iteration refines `UP.merge` and cannot fail (item 1)
+* `upgma_tree` — the combined statement: success, binary shape, leaves = taxa, equidistant leaves,
+  non-negative lengths, internal nodes = a complete run of average-linkage clustering from its definition
+* `upgma_recovers_ultrametric` — for ultrametric input the leaf-to-leaf path lengths are the input -/
+
+open UPG MX Tri MXS
+
+/-- one iteration of the executable loop refines the abstract agglomeration step -/
+theorem step_refines {n : Nat} {st st' : UPG.St} {mem : Nat → List Nat} (h : WFSt n st mem) (hs : step st = .ok st') :
+    ∃ a b, a ∈ actOf n st ∧ b ∈ actOf n st ∧ a ≠ b ∧
+      (∀ j k, j ∈ actOf n st → k ∈ actOf n st → j ≠ k → Dof st a b ≤ Dof st j k) ∧
+      WFSt n st' (memAfter mem a b) ∧
+      Agree (absSt n st' (memAfter mem a b)) (UP.merge (absSt n st mem) a b) :=
+  UPG.step_refines h hs
+
+/-- ... and on a well-formed state with two or more live clusters it returns neither an error nor a panic -/
+theorem step_total {n : Nat} {st : UPG.St} {mem : Nat → List Nat} (h : WFSt n st mem) (h2 : 2 ≤ (actOf n st).length) :
+    ∃ st', step st = .ok st' :=
+  UPG.step_total h h2
+
+/-- **C15, combined.**  `UPG.upgma` succeeds, and the tree `t` it returns
+    * is binary at every internal node, the root has exactly two children, every leaf is named, and the leaf
+      names are a permutation of the taxa;
+    * has all its leaves at one and the same distance from the root;
+    * has a non-negative branch length on every non-root node;
+    * has as internal nodes (leaf names below the node, height of the node above its leaves) exactly the
+      merge events of a complete run of average-linkage clustering from its definition (`AvgRun`), which are
+      the events the instrumented run `upgmaTr` records. -/
+theorem upgma_tree (taxa : List String) (v : Array Rat) (h2 : 2 ≤ taxa.length) (hv : v.size = T taxa.length)
+    (hpos : ∀ k, k < v.size → 0 ≤ v.getD k 0) :
+    ∃ t m tie dy, upgma taxa v = .ok (t, m, tie, dy) ∧
+      (isBin t = true ∧ t.kids.length = 2 ∧ (leafNames t).Perm (taxa.map some)) ∧
+      (∃ h, ∀ d, d ∈ leafDepths t → d = h) ∧
+      NonNegLens t ∧
+      (∃ evs k cl, upgmaTr taxa v = .ok evs ∧
+        AvgRun (d0of v) (List.range taxa.length) (fun i => [i]) evs [k] cl ∧
+        (cl k).Perm (List.range taxa.length) ∧ evs.length = taxa.length - 1 ∧
+        ∀ x, x ∈ nodeInfo t ↔ ∃ e, e ∈ evs ∧ x = evInfo taxa e) := by
+  obtain ⟨t, m, tie, dy, evs, k, cl, hup, htr, hrun, hperm, hlen, hnodes⟩ := upgma_average_linkage taxa v h2 hv hpos
+  exact ⟨t, m, tie, dy, hup, upgma_shape taxa v h2 hv hpos t m tie dy hup,
+    upgma_equidistant taxa v h2 hv hpos t m tie dy hup, (upgma_ok_nonneg taxa v h2 hv hpos).2 t m tie dy hup,
+    evs, k, cl, htr, hrun, hperm, hlen, hnodes⟩
+
+/-- **C15, ultrametric input.**  If moreover the input satisfies the three-point condition, the matrix of
+    leaf-to-leaf path lengths of the returned tree is the input matrix (`A` lists the taxon indices in leaf
+    order). -/
+theorem upgma_recovers_ultrametric (taxa : List String) (v : Array Rat) (h2 : 2 ≤ taxa.length)
+    (hv : v.size = T taxa.length) (hpos : ∀ k, k < v.size → 0 ≤ v.getD k 0) (hu : Ultra (d0of v) taxa.length) :
+    ∃ t m tie dy A, upgma taxa v = .ok (t, m, tie, dy) ∧ A.Perm (List.range taxa.length) ∧
+      leafNames t = A.map (fun i => some (nameOf taxa i)) ∧ distM t = matOf (d0of v) A :=
+  UPG.upgma_recovers_ultrametric taxa v h2 hv hpos hu
 
 end C15
